@@ -107,6 +107,12 @@ CHECKS = {
     note="Exploration: seeded sampling. Float and >2^31 decimal text computed by the harness with strconv. Defects found and repaired: hex flags, final line without newline, empty Z/H, empty B array, empty H formatted as 00.",
     technique="TLA+ reference formatter evaluated by TLC on traces of real MarshalSAM / UnmarshalSAM / sam.Reader runs",
     engine="Codec"),
+ "C11": dict(
+    category="exploration", design_ref="DESIGN.md §5 C11",
+    text="Grammar.tla gives for each of 17 decoders (BGZF, BAM, binary header, BAI, tabix, CSI v1/v2, FAI, FASTA scan, SAM header text, SAM record line, SAM file, aux text, CIGAR text, CRAM, ITF-8, LTF-8, ITF-8 arrays) the fields of its encoding and the mutation space by field kind; TLC enumerates every case (decoder x field x first/last instance x mutation: about 5200) and, in the thorough tier, seeded pairs. The harness builds valid specimens field by field, applies the case with enclosing lengths and checksums recomputed, runs the real decoder followed by the library's accessors, formatters, writers and index builders on any value returned, under recover() and a watchdog in a process with an address-space limit; the repository's crasher corpora are run as they are. TLC judges every recorded outcome: value or error, never panic or hang.",
+    note="Exploration: structured, model-enumerated mutation of the harness's specimens, not all byte strings. Allocation beyond the limit is recorded (oom) and not judged, as the property states. 19 decoder defects found and repaired (see KNOWN_FINDINGS.txt).",
+    technique="TLA+ schema/mutation grammar enumerated by TLC + TLC trace validation of real decoder runs",
+    engine="Formats"),
  "C07": dict(
     category="model_checking", design_ref="DESIGN.md §5 C07",
     text="HeaderP models a header's reference / read-group / program lists under the public edit API (documented latitude only for a reference whose name is already present); HeaderI models the code's slice + name table + per-object owner/id with the three AddReference paths, RemoveReference and SetName, and TLC checks its invariants (ids = indices, ownership, unique names, table = list, release on removal) on the complete state graph of a small instance. Seeded edit histories over up to four headers run on the real sam.Header; after every call the projection of every live header and the text/binary serialisation fixpoints (identical text and binary after re-parse, equal exposed values) are validated by TLC against HeaderP; MergeHeaders links are checked by object identity.",
@@ -153,6 +159,7 @@ HOOK_COMMITS = ["4b6c86a", "f712ea4", "5dd3b6c", "b7bc5fc"]
 ENGINES = [
  dict(name="Merger", path="spec/Merger", serves_properties=["C18"], kind_free_text="TLA+ MergerP/MergerI + TLC MC + trace validation"),
  dict(name="Header", path="spec/Header", serves_properties=["C07"], kind_free_text="TLA+ HeaderP/HeaderI + TLC MC + trace validation"),
+ dict(name="Formats", path="spec/Formats", serves_properties=["C11"], kind_free_text="TLA+ Grammar (schemas x mutations) + TLC enumeration + trace validation"),
  dict(name="Codec", path="spec/Codec", serves_properties=["C05", "C06"], kind_free_text="TLA+ reference BAM encoder / SAM formatter + TLC trace validation"),
  dict(name="Fai", path="spec/Fai", serves_properties=["C19"], kind_free_text="TLA+ Fai (FaiP/FaiI) + TLC MC + trace validation"),
  dict(name="BinIndex", path="spec/BinIndex", serves_properties=["C04", "C15"], kind_free_text="TLA+ IndexP/IndexI + TLC MC + trace validation"),
